@@ -549,7 +549,9 @@ theorem hasScheme_fileRowUrl_some (q item : Bytes) :
   unfold fileRowUrl
   simp only
   split
-  · subst_vars; simp [hasScheme_dotSlash, hasScheme]
+  · subst_vars
+    rw [List.append_assoc, hasScheme_dotSlash]
+    rfl
   · simp only [List.append_assoc, List.singleton_append]
     exact hasScheme_append_slash q _
 
